@@ -123,7 +123,7 @@ type ContractSet struct {
 }
 
 var reClauseLoop = regexp.MustCompile(`^loop#(\d+)\s+(invariant|decreases|use|assert)\s+(.*)$`)
-var reAt = regexp.MustCompile(`^at\s+(\S+)\s+(use|assert|set|setdef)\s+(.*)$`)
+var reAt = regexp.MustCompile(`^at\s+(\S+)\s+(use|assert|set|setdef|bind)\s+(.*)$`)
 var reLemma = regexp.MustCompile(`^lemma\s+([A-Za-z_][A-Za-z0-9_]*)\s*\((.*)\)\s*$`)
 var rePred = regexp.MustCompile(`^(?:pred|fun)\s+([A-Za-z_][A-Za-z0-9_]*)\s*\((.*?)\)\s*(?:[A-Za-z_.\[\]*]+\s*)?:=\s*(.*)$`)
 
@@ -396,6 +396,21 @@ func (cs *ContractSet) parseFile(pkgPath, file string) error {
 					return fail(err)
 				}
 				cur.Hints[m[1]] = append(cur.Hints[m[1]], Hint{Kind: "set", L: le, E: e, Src: m[3], Line: l.line})
+				continue
+			}
+			if m[2] == "bind" {
+				// bind name = expr; name2 = expr2   (ghost names for later hints of the same function)
+				for _, part := range splitTopSemi(m[3]) {
+					sp := strings.SplitN(part, " = ", 2)
+					if len(sp) != 2 {
+						return fail(fmt.Errorf("bad bind: %s", part))
+					}
+					e, err := ParseSpec(strings.TrimSpace(sp[1]))
+					if err != nil {
+						return fail(err)
+					}
+					cur.Hints[m[1]] = append(cur.Hints[m[1]], Hint{Kind: "bind", Bind: strings.TrimSpace(sp[0]), E: e, Src: part, Line: l.line})
+				}
 				continue
 			}
 			if m[2] == "setdef" {
